@@ -64,3 +64,96 @@ Example C17_sorted_example :
      Some {| published := {| secs := 10; nanos := 5 |}; updated := {| secs := 20; nanos := 0 |} |};
      Some {| published := {| secs := 15; nanos := 0 |}; updated := {| secs := 0; nanos := 0 |} |}].
 Proof. repeat constructor. Qed.
+
+(* ---- function bodies under the translator: generated-table tie (b45) ---- *)
+(* item_order_timestamp / ts_view (Model/OrderItem.v) were hand-written after the source and tied to it by the
+   correspondence cases only.  Now
+     - Gen/OrderT.v is regenerated on every run (translator/gobody.go) with the body of ItemOrderTimestamp, statement
+       by statement, in the imperative language of Model/GoBody.v (two-value calls, nil tests that say what is compared
+       with nil, field reads with their Go type, locals that are reassigned; calls under the names go/types resolves
+       them to: ToObject, time.Time.After; anything outside the language is an explicit GsUnrec / GxUnrec entry);
+     - ToObject is read from Gen/Conv.v (its type switch case by case) and Gen/Layout.v (the struct layouts an unsafe
+       reinterpretation goes through) by the interpreter conv_item of Model/Conv.v.
+   Model/OrderTab.v states the two decidable conditions: order_table_ok (the body is the one item_order_timestamp was
+   written after) and toobject_table_ok (every non-link struct type, value and pointer form, has a case handing back
+   the pointer itself, a copy, or a reinterpretation as Object under which the layouts back every field of Object at
+   its offset with its name - so published and updated are read where they were written; a link, an IRI, a list
+   falls to the reflection default, which refuses a link).  Proofs/OrderTabP.v: for every tables satisfying them, for
+   all pairs of items, the tables' meaning is the hand-written model.  The one leaf left is time.Time.After. *)
+From AP.Model Require Import Layout Views Conv GoBody OrderTab OrderGen.
+From AP.Proofs Require Import GoBodyP OrderTabP.
+
+(* generic: ToObject, as ANY conversion table and layouts satisfying the condition say it, is ts_view - on every item *)
+Theorem C17_toobject_table_tie : forall layout_of sizeof_kind reflect_convertible ctbl dflt,
+  toobject_table_ok layout_of sizeof_kind reflect_convertible ctbl dflt = true ->
+  forall i, view_of_conv (to_object_t layout_of sizeof_kind reflect_convertible ctbl dflt i) = Some (ts_view i).
+Proof. exact to_object_view. Qed.
+
+(* generic: the body, for EVERY table satisfying the condition, over any ToObject that agrees with ts_view on the
+   arguments; a result is (returned values, no receiver) *)
+Theorem C17_order_table_tie_over : forall tbl, order_table_ok tbl = true ->
+  forall tobj a b, view_of_conv (tobj a) = Some (ts_view a) -> view_of_conv (tobj b) = Some (ts_view b) ->
+  item_order_t tbl tobj a b = Ok ([GvBool (item_order_timestamp a b)], None).
+Proof. exact item_order_tie_over. Qed.
+
+(* both together: ItemOrderTimestamp read from a body table, a conversion table and layouts = the model, all items *)
+Theorem C17_order_table_tie : forall tbl, order_table_ok tbl = true ->
+  forall layout_of sizeof_kind reflect_convertible ctbl dflt,
+  toobject_table_ok layout_of sizeof_kind reflect_convertible ctbl dflt = true ->
+  forall a b, item_order_t tbl (to_object_t layout_of sizeof_kind reflect_convertible ctbl dflt) a b
+              = Ok ([GvBool (item_order_timestamp a b)], None).
+Proof. exact item_order_tie. Qed.
+
+(* diagnosis first: when the source moved, these are the obligations that fail; Coq's error message names the function,
+   the position of the first top-level statement that differs with the generated and the modelled statement /
+   the first item shape whose ToObject case is missing, of another form, or not backed by the layouts *)
+Theorem C17_order_table_first_bad : order_first_bad gen_order_fns = None.
+Proof. vm_compute. reflexivity. Qed.
+Theorem C17_toobject_table_first_bad : toobject_gen_first_bad = None.
+Proof. vm_compute. reflexivity. Qed.
+
+(* the conditions on the tables regenerated from the source on this run *)
+Theorem C17_order_table : order_table_ok gen_order_fns = true.
+Proof. vm_compute. reflexivity. Qed.
+Theorem C17_toobject_table : toobject_gen_ok = true.
+Proof. vm_compute. reflexivity. Qed.
+
+(* hence: ItemOrderTimestamp as the source says it now - its body, the cases of ToObject, the struct layouts - is the
+   model the theorems above are about *)
+Theorem C17_item_order_gen : forall a b, item_order_gen a b = Ok ([GvBool (item_order_timestamp a b)], None).
+Proof.
+  intros a b. unfold item_order_gen, to_object_gen.
+  apply C17_order_table_tie; [exact C17_order_table|exact C17_toobject_table].
+Qed.
+
+(* non-vacuity: the generated tables evaluated (nothing hand-written but the interpreters and time.Time.After): a note
+   updated at 20 ranks before a tombstone (value form, seen through the reinterpretation) published at 15, not the
+   other way round; nil ranks before the note; an IRI does not rank *)
+Example C17_item_order_gen_example :
+  length gen_order_fns = 1%nat /\
+  item_order_gen ex_note ex_tomb = Ok ([GvBool true], None) /\
+  item_order_gen ex_tomb ex_note = Ok ([GvBool false], None) /\
+  item_order_gen INil ex_note = Ok ([GvBool true], None) /\
+  item_order_gen (ITNil KActor) ex_note = Ok ([GvBool true], None) /\
+  item_order_gen (IIri false (B "https://example.com/1")) ex_note = Ok ([GvBool false], None).
+Proof. repeat match goal with |- _ /\ _ => split end; vm_compute; reflexivity. Qed.
+
+(* what the conditions are for: (a) the table of a source that takes the sort key from published alone fails the body
+   condition, the diagnosis names statement 5 of ItemOrderTimestamp, and that table's meaning ranks the note (published
+   10, updated 20) AFTER the tombstone published at 15; (b) a ToObject without the Tombstone cases, (c) a Tombstone
+   whose published and startTime fields changed places in the struct declaration fail the conversion condition, and the
+   diagnosis names the pointer form of Tombstone *)
+Example C17_changed_source_rejected :
+  order_table_ok order_fns_published_only = false /\
+  option_map (fun p => (fst p, option_map (fun q => fst (fst q)) (snd p))) (order_first_bad order_fns_published_only)
+    = Some (n_item_order, Some 5%nat) /\
+  item_order_t order_fns_published_only to_object_gen ex_note ex_tomb = Ok ([GvBool false], None) /\
+  toobject_table_ok AP.Gen.Layout.layout_of AP.Gen.Layout.sizeof_kind AP.Gen.Conv.reflect_convertible
+                    (conv_without KTombstone AP.Gen.Conv.conv_ToObject) AP.Gen.Conv.conv_ToObject_default = false /\
+  toobject_first_bad AP.Gen.Layout.layout_of AP.Gen.Layout.sizeof_kind
+                     (conv_without KTombstone AP.Gen.Conv.conv_ToObject) = Some (CK KTombstone, true) /\
+  toobject_table_ok layout_tombstone_swapped AP.Gen.Layout.sizeof_kind AP.Gen.Conv.reflect_convertible
+                    AP.Gen.Conv.conv_ToObject AP.Gen.Conv.conv_ToObject_default = false /\
+  toobject_first_bad layout_tombstone_swapped AP.Gen.Layout.sizeof_kind AP.Gen.Conv.conv_ToObject
+    = Some (CK KTombstone, true).
+Proof. repeat match goal with |- _ /\ _ => split end; vm_compute; reflexivity. Qed.
